@@ -144,7 +144,10 @@ func (self *DbImpl) Update(ctx MutateContext, fn func(ctx MutateContext) error) 
 	}
 
 	if ctx.Tx() == nil {
+		simPoint("reload.rlock.before", self)
 		self.reloadLock.RLock()
+		simPoint("reload.rlock.after", self)
+		defer simPoint("reload.runlock.after", self)
 		defer self.reloadLock.RUnlock()
 
 		defer ctx.setTx(nil)
@@ -180,7 +183,10 @@ func (self *DbImpl) Batch(ctx MutateContext, fn func(ctx MutateContext) error) e
 	}
 
 	if ctx.Tx() == nil {
+		simPoint("reload.rlock.before", self)
 		self.reloadLock.RLock()
+		simPoint("reload.rlock.after", self)
+		defer simPoint("reload.runlock.after", self)
 		defer self.reloadLock.RUnlock()
 
 		defer ctx.setTx(nil)
@@ -198,20 +204,29 @@ func (self *DbImpl) Batch(ctx MutateContext, fn func(ctx MutateContext) error) e
 }
 
 func (self *DbImpl) View(fn func(tx *bbolt.Tx) error) error {
+	simPoint("reload.rlock.before", self)
 	self.reloadLock.RLock()
+	simPoint("reload.rlock.after", self)
+	defer simPoint("reload.runlock.after", self)
 	defer self.reloadLock.RUnlock()
 	return self.db.View(fn)
 }
 
 func (self *DbImpl) Stats() bbolt.Stats {
+	simPoint("reload.rlock.before", self)
 	self.reloadLock.RLock()
+	simPoint("reload.rlock.after", self)
+	defer simPoint("reload.runlock.after", self)
 	defer self.reloadLock.RUnlock()
 
 	return self.db.Stats()
 }
 
 func (self *DbImpl) RootBucket(tx *bbolt.Tx) (*bbolt.Bucket, error) {
+	simPoint("reload.rlock.before", self)
 	self.reloadLock.RLock()
+	simPoint("reload.rlock.after", self)
+	defer simPoint("reload.runlock.after", self)
 	defer self.reloadLock.RUnlock()
 
 	rootBucket := tx.Bucket([]byte(self.rootBucket))
@@ -242,7 +257,10 @@ func (self *DbImpl) Snapshot(path string) (string, string, error) {
 }
 
 func (self *DbImpl) SnapshotInTx(tx *bbolt.Tx, path string) (string, string, error) {
+	simPoint("reload.rlock.before", self)
 	self.reloadLock.RLock()
+	simPoint("reload.rlock.after", self)
+	defer simPoint("reload.runlock.after", self)
 	defer self.reloadLock.RUnlock()
 
 	now := time.Now()
@@ -276,7 +294,10 @@ func (self *DbImpl) SnapshotInTx(tx *bbolt.Tx, path string) (string, string, err
 }
 
 func (self *DbImpl) StreamToWriter(w io.Writer) error {
+	simPoint("reload.rlock.before", self)
 	self.reloadLock.RLock()
+	simPoint("reload.rlock.after", self)
+	defer simPoint("reload.runlock.after", self)
 	defer self.reloadLock.RUnlock()
 
 	return self.db.View(func(tx *bbolt.Tx) error {
@@ -296,7 +317,10 @@ func (self *DbImpl) RestoreFromReader(snapshot io.Reader) {
 		panic(err)
 	}
 
+	simPoint("reload.lock.before", self)
 	self.reloadLock.Lock()
+	simPoint("reload.lock.after", self)
+	defer simPoint("reload.unlock.after", self)
 	defer self.reloadLock.Unlock()
 
 	dbPath := self.db.Path()
